@@ -11,3 +11,11 @@ func SimInitLogger() {
 		logger = log.GetLoggerByIndex(log.AccessLogConfig, "")
 	}
 }
+
+// SimNewMinerPoolReader returns a reader bound to the current incarnation's miner manager (the
+// package keeps a process-wide singleton that would otherwise point at a previous incarnation).
+func SimNewMinerPoolReader() *MinerPoolReader {
+	SimInitLogger()
+	minerPoolReaderInstance = nil
+	return NewMinerPoolReader()
+}
